@@ -16,4 +16,5 @@ package ruler
 //@ ensures [att] action == ActionSignBeaconAttestation ==> (forall i int :: 0 <= i && i < len(data) && result[i] == rules.APPROVED ==> data[i] != nil && hastype(data[i].Data, "*rules.SignBeaconAttestationData") && bytes(data[i].PubKey) in tokroot && tokroot[bytes(data[i].PubKey)] == attRootOf(unbox(data[i].Data, "*rules.SignBeaconAttestationData")))
 //@ ensures [prop] action == ActionSignBeaconProposal ==> (forall i int :: 0 <= i && i < len(data) && result[i] == rules.APPROVED ==> data[i] != nil && hastype(data[i].Data, "*rules.SignBeaconProposalData") && bytes(data[i].PubKey) in tokroot && tokroot[bytes(data[i].PubKey)] == propRootOf(unbox(data[i].Data, "*rules.SignBeaconProposalData")))
 //@ ensures [gen] action == ActionSign ==> (forall i int :: 0 <= i && i < len(data) && result[i] == rules.APPROVED ==> data[i] != nil && hastype(data[i].Data, "*rules.SignData") && bytes(data[i].PubKey) in tokroot && tokroot[bytes(data[i].PubKey)] == genRootOf(unbox(data[i].Data, "*rules.SignData")) && prefix4(unbox(data[i].Data, "*rules.SignData").Domain) != ATT && prefix4(unbox(data[i].Data, "*rules.SignData").Domain) != PROP)
+//@ ensures [distinct] (action == ActionSign || action == ActionSignBeaconProposal || action == ActionSignBeaconAttestation) ==> (forall i int, j int :: 0 <= i && i < j && j < len(data) && result[i] == rules.APPROVED && result[j] == rules.APPROVED ==> bytes(data[i].PubKey) != bytes(data[j].PubKey))
 //@ ensures [keep] forall k Bytes :: (forall i int :: !(0 <= i && i < len(data) && data[i] != nil && result[i] == rules.APPROVED && bytes(data[i].PubKey) == k)) ==> ((k in tokroot) <==> old(k in tokroot)) && tokroot[k] == old(tokroot[k])
